@@ -679,10 +679,13 @@ fn dbg(ctx: &Ctx, bi: Bi, what: &str, call: &Value) -> Value {
     macro_rules! d {
         ($e:expr) => {
             {
+                let before = s.len();
                 write!(s, "{:?}", $e).unwrap();
+                let plain = s.len() - before;
                 write!(s, "{:#?}", $e).unwrap();
-                // ... and into sinks that refuse after a few bytes: Debug reports the error, it does not panic
-                for n in [0usize, 5, 40] {
+                // ... and into sinks that refuse at various points of the output: Debug reports the error, it does
+                // not panic
+                for n in [0, 1, plain / 8, plain / 4, plain / 2, plain * 3 / 4, plain.saturating_sub(2)] {
                     let _ = write!(crate::out::Limited(n), "{:?}", $e);
                 }
             }
@@ -711,6 +714,8 @@ fn dbg(ctx: &Ctx, bi: Bi, what: &str, call: &Value) -> Value {
         "smbios" => d!(bi.smbios_tag()),
         "vbe" => d!(bi.vbe_info_tag()),
         "modules" => d!(bi.module_tags()),
+        "module" => d!(bi.get_tag::<multiboot2::ModuleTag>()),
+        "end" => d!(bi.get_tag::<multiboot2::EndTag>()),
         "tags" => d!(bi.tags()),
         "it" => match ctx.its.get(&out::arg_u64(call, "it")) {
             None => return out::skipped(),
